@@ -13,6 +13,10 @@
 (* finished check runs without it.  Algo = "single" does all of it under    *)
 (* one acquisition.  Slicing at proc > Len(text) is the explicit Panic      *)
 (* transition, which poisons the mutex for every later caller.              *)
+(* A thread may CLONE the view ("clone" call): it goes on with a private   *)
+(* copy whose index starts empty (what the code's Clone does); being used by *)
+(* one thread only, the copy steps atomically through SourceView!Apply and   *)
+(* never touches the shared lock.                                           *)
 (* The relaxed load is modelled as reading the current value (weak-memory   *)
 (* reorderings are not explored).                                           *)
 (***************************************************************************)
@@ -20,8 +24,9 @@ EXTENDS SourceView, TLC, Json
 
 CONSTANTS Threads, Algo, Texts, CallPool, MaxCalls
 
-VARIABLES text, calls, lock, poisoned, proc, cache, pc, k, results, sched, phase
-vars == <<text, calls, lock, poisoned, proc, cache, pc, k, results, sched, phase>>
+VARIABLES text, calls, lock, poisoned, proc, cache, pc, k, results, sched, phase, own
+vars == <<text, calls, lock, poisoned, proc, cache, pc, k, results, sched, phase, own>>
+\* own[t]: <<>> while thread t uses the shared view, <<index state>> once it has cloned it
 
 FREE == 0
 Idx(c) == IF c.op = "line_count" THEN MAXU ELSE c.i
@@ -33,16 +38,17 @@ Init == /\ phase = "build" /\ text \in Texts
         /\ lock = FREE /\ poisoned = FALSE /\ proc = 0 /\ cache = <<>>
         /\ pc = [t \in Threads |-> "idle"] /\ k = [t \in Threads |-> 1]
         /\ results = [t \in Threads |-> <<>>] /\ sched = <<>>
+        /\ own = [t \in Threads |-> <<>>]
 \* TLC chooses each thread's program
 AddCall == /\ phase = "build"
            /\ \E t \in Threads, c \in CallPool :
                  /\ Len(calls[t]) < MaxCalls
                  /\ (\A u \in Threads : u < t => Len(calls[u]) >= 1)
                  /\ calls' = [calls EXCEPT ![t] = Append(@, c)]
-           /\ UNCHANGED <<text, lock, poisoned, proc, cache, pc, k, results, sched, phase>>
+           /\ UNCHANGED <<text, lock, poisoned, proc, cache, pc, k, results, sched, phase, own>>
 Go == /\ phase = "build" /\ \A t \in Threads : Len(calls[t]) >= 1
       /\ phase' = "run"
-      /\ UNCHANGED <<text, calls, lock, poisoned, proc, cache, pc, k, results, sched>>
+      /\ UNCHANGED <<text, calls, lock, poisoned, proc, cache, pc, k, results, sched, own>>
 
 \* record the answer of thread t's current call and move to its next call
 Record(t, rec) == /\ results' = [results EXCEPT ![t] = Append(@, rec)]
@@ -53,8 +59,20 @@ AnswerPanic(t) == Record(t, [p |-> TRUE, v |-> <<>>])
 \* what get_line / line_count return when the index has nothing (more) for the request
 NoneOrCount(t) == IF Cur(t).op = "line_count" THEN "cnt" ELSE "none"
 
+\* the clone call itself, and every call of a thread that works on its private copy
+Private(t) ==
+    /\ pc[t] = "idle" /\ k[t] <= Len(calls[t])
+    /\ (Cur(t).op = "clone" \/ own[t] # <<>>)
+    /\ IF Cur(t).op = "clone"
+       THEN own' = [own EXCEPT ![t] = << SvInit >>] /\ Answer(t, 0)
+       ELSE LET r == Apply(own[t][1], text, Cur(t)) IN
+            own' = [own EXCEPT ![t] = << r.st >>] /\ Answer(t, r.ret)
+    /\ UNCHANGED <<lock, poisoned, proc, cache>>
+
 Begin(t) ==
     /\ pc[t] = "idle" /\ k[t] <= Len(calls[t]) /\ lock = FREE
+    /\ Cur(t).op # "clone" /\ own[t] = <<>>
+    /\ UNCHANGED own
     /\ IF poisoned THEN AnswerPanic(t) /\ UNCHANGED <<lock, poisoned, proc, cache>>
        ELSE IF Idx(Cur(t)) < Len(cache)
             THEN Answer(t, <<cache[Idx(Cur(t)) + 1]>>) /\ UNCHANGED <<lock, poisoned, proc, cache>>
@@ -67,6 +85,7 @@ Begin(t) ==
 
 Fin(t) ==
     /\ pc[t] = "fin"
+    /\ UNCHANGED own
     /\ IF proc > Len(text)
        THEN IF Cur(t).op = "line_count"
             THEN pc' = [pc EXCEPT ![t] = "cnt"] /\ UNCHANGED <<results, k>>
@@ -76,11 +95,13 @@ Fin(t) ==
 
 Acq(t) ==
     /\ pc[t] = "acq" /\ lock = FREE
+    /\ UNCHANGED own
     /\ IF poisoned THEN AnswerPanic(t) /\ UNCHANGED <<lock, poisoned, proc, cache>>
        ELSE lock' = t /\ pc' = [pc EXCEPT ![t] = "loop"] /\ UNCHANGED <<poisoned, proc, cache, results, k>>
 
 Loop(t) ==
     /\ pc[t] = "loop" /\ lock = t
+    /\ UNCHANGED own
     /\ IF proc > Len(text)
        THEN \* text[proc..] is out of range: panic while holding the guard => the mutex is poisoned
             /\ poisoned' = TRUE /\ lock' = FREE /\ AnswerPanic(t) /\ UNCHANGED <<proc, cache>>
@@ -100,10 +121,11 @@ Loop(t) ==
 
 Cnt(t) ==
     /\ pc[t] = "cnt" /\ lock = FREE
+    /\ UNCHANGED own
     /\ IF poisoned THEN AnswerPanic(t) ELSE Answer(t, Len(cache))
     /\ UNCHANGED <<lock, poisoned, proc, cache>>
 
-Step(t) == phase = "run" /\ (Begin(t) \/ Fin(t) \/ Acq(t) \/ Loop(t) \/ Cnt(t))
+Step(t) == phase = "run" /\ (Private(t) \/ Begin(t) \/ Fin(t) \/ Acq(t) \/ Loop(t) \/ Cnt(t))
                          /\ sched' = Append(sched, t) /\ UNCHANGED <<text, calls, phase>>
 Next == AddCall \/ Go \/ \E t \in Threads : Step(t)
 Spec == Init /\ [][Next]_vars
@@ -116,12 +138,13 @@ NoPanic == ~poisoned /\ \A t \in Threads : \A j \in 1..Len(results[t]) : ~result
 Safe == Correct /\ NoPanic
 \* the lock is only ever held inside the indexing loop, whose holder can always step: no deadlock
 LockDiscipline == lock # FREE => pc[lock] = "loop"
-NeedsLock(t) == pc[t] \in {"idle", "acq", "cnt"}
+NeedsLock(t) == pc[t] \in {"idle", "acq", "cnt"} /\ ~(pc[t] = "idle" /\ k[t] <= Len(calls[t]) /\ (Cur(t).op = "clone" \/ own[t] # <<>>))
 Progress == (phase = "run" /\ ~AllDone) =>
                 \E t \in Threads : k[t] <= Len(calls[t]) /\ ~(NeedsLock(t) /\ lock # FREE)
-IndexOK == poisoned \/ (IsPrefix(cache, Lines(text)) /\ ((proc > Len(text)) => Len(cache) = Len(Lines(text))))
+IndexOK == /\ poisoned \/ (IsPrefix(cache, Lines(text)) /\ ((proc > Len(text)) => Len(cache) = Len(Lines(text))))
+           /\ \A t \in Threads : own[t] # <<>> => IndexConsistent(own[t][1], text)      \* private copies too
 
-View == <<text, calls, lock, poisoned, proc, cache, pc, k, results, phase>>   \* everything but the schedule
+View == <<text, calls, lock, poisoned, proc, cache, pc, k, results, phase, own>>   \* everything but the schedule
 EmitCase == AllDone => PrintT("CASE " \o ToJson([op |-> "conc", text |-> text,
                                    calls |-> [i \in 1..Cardinality(Threads) |-> calls[i]], sched |-> sched]))
 =============================================================================
